@@ -221,7 +221,8 @@ static bool pop_dgram(Sock *s, Dgram &d)
 		s->owner->n_recv++;
 		for (auto m : S->monitors) m->on_recv(*s->owner, d);
 	}
-	S->fp_mix_str("recv"); S->fp_mix_u64(s->host); S->fp_mix(d.data.data(), d.data.size());
+	if (d.decoy) S->fp_mix_str("decoy");       // its content is the variable of the differential: not part of the fingerprint
+	else { S->fp_mix_str("recv"); S->fp_mix_u64(s->host); S->fp_mix(d.data.data(), d.data.size()); }
 	return true;
 }
 
